@@ -153,6 +153,15 @@ def render(obj, ospec, req, conf_dict, live_conf=None, observe=None):
             observe(res)
         if req['mode'] == 'whole':
             return str(res)
+        # other ways to take the whole text out of a result
+        if req['mode'] == 'copy':
+            return str(res.get_ch_text())
+        if req['mode'] == 'concat':
+            return str(res + "") if len(ospec.get('fmt', '')) % 2 else str("" + res)
+        if req['mode'] == 'format':
+            return format(res, "")
+        if req['mode'] == 'plain':
+            return res.plain_text() if no_color else str(res)
         if req['mode'] == 'lines_join':
             return str(CHText("\n").join(res))
         if req['mode'] == 'whole_then_lines':
